@@ -540,6 +540,12 @@ int main(int argc, char **argv) {
       unsigned long sz = !strcmp(z, "8") ? 8UL : !strcmp(z, "0") ? 0UL : !strcmp(z, "23") ? 23UL : !strcmp(z, "neg") ? (unsigned long)-1L : !strcmp(z, "huge") ? 1UL << 40 : 4097UL;
       r = syscall(437, -100, reg, how, sz);
     }
+    else if (!strncmp(k, "open_flags_", 11)) {
+      // every value of the flags argument is the program's to choose: access mode 3, all bits, upper garbage; open, openat and openat2
+      unsigned long fl = strtoul(k + 11, NULL, 16); static unsigned long how[3]; how[0] = fl;
+      strcpy(reg, "/dev/null");
+      r = syscall(SYS_open, reg, fl); r = syscall(SYS_openat, -100, reg, fl); r = syscall(437, -100, reg, how, 24L);
+    }
     else if (!strcmp(k, "execve_bad")) { r = syscall(SYS_execve, 8L, 8L, 8L); }
     else if (!strcmp(k, "symlink_nest")) {
       // symlinks that never resolve: a self-nesting link and a two-link cycle, reached by absolute path
